@@ -304,6 +304,26 @@ def r_negamax(ck, fn):
             g = guards_of(prog, b, bb, tb)
             cap = any(tk is True and is_call(c, "weechess_core::moves::Move::is_capture") for c, tk in g)
             ck.req(cap, "R11.captures_only", short, b.where(t["line"]), "quiescence searches a move that is not a capture")
+        # the capture loop looks at a subset of the moves only, which is sound only together with the stand-pat floor: every path
+        # into the loop has compared the static evaluation with beta (fail-hard) and with alpha (floor)
+        sp_beta, sp_alpha = [], []
+        for bb2, blk2 in enumerate(b.blocks):
+            t2 = blk2["term"]
+            if t2["k"] != "switch" or blk2.get("cleanup"):
+                continue
+            c2 = tb.operand(t2["discr"])
+            ge_ = _cmp(c2, "ge")
+            if ge_ and is_call(ge_[0], EVALUATE) and is_beta(ge_[1]):
+                sp_beta.append(bb2)
+            lt_, gt_ = _cmp(c2, "lt"), _cmp(c2, "gt")
+            if (lt_ and is_alpha(lt_[0]) and is_call(lt_[1], EVALUATE)) or (gt_ and is_call(gt_[0], EVALUATE) and is_alpha(gt_[1])):
+                sp_alpha.append(bb2)
+        rec_blocks = [bb2 for bb2, _t in recs]
+        ck.req(bool(sp_beta) and cfg.must_pass(b, [0], rec_blocks, sp_beta), "R11.stand_pat_cutoff", short, b.where(),
+               "captures are searched on a path that did not test `static evaluation >= beta` first")
+        ck.req(bool(sp_alpha) and cfg.must_pass(b, [0], rec_blocks, sp_alpha), "R11.stand_pat_floor", short, b.where(),
+               "captures are searched on a path that did not raise alpha to the static evaluation first: with only captures searched, a node whose "
+               "captures all lose is scored as lost although a quiet move holds (false mate scores at the horizon)")
         empt = any(any(tk is True and c[0] == "call" and c[1].endswith("::is_empty") for c, tk in g) for bb, line, v, g in quiet)
         ck.req(empt, "R11.terminal_first", short, b.where(), "a position without legal moves is not scored before the stand-pat logic")
     ck.sample({"rule": "R1", "function": short, "alpha_locals": sorted(av), "beta_locals": sorted(bv), "child_value_locals": child_vals, "ok_returns": len(rets)})
